@@ -91,7 +91,7 @@ func (e *Engine) havocBase(st *State, elem types.Type, base *smt.Term) {
 
 var intrinsicNames = map[string]bool{"vAssume": true, "vAssert": true, "vRequires": true, "vEnsures": true, "vModifies": true,
 	"vNondet": true, "vOld": true, "vForall": true, "vInvariant": true, "vBody": true, "vStep": true, "vCallCount": true,
-	"vCallArg": true, "vSameSlice": true, "vFresh": true, "vSeparate": true}
+	"vCallArg": true, "vSameSlice": true, "vFresh": true, "vSeparate": true, "vJoined": true, "vSame": true}
 
 func constString(v ssa.Value) string {
 	if c, ok := v.(*ssa.Const); ok && c.Value != nil && c.Value.Kind() == constant.String {
@@ -172,6 +172,9 @@ func (e *Engine) intrinsic(st *State, fn *ssa.Function, name string, args []Valu
 		v := e.symbolic(fn.Signature.Results().At(0).Type(), "nondet")
 		return &v, st, true
 	case "vOld":
+		saveP := e.paths
+		e.paths = false
+		defer func() { e.paths = saveP }()
 		f := e.curCtr()
 		if f == nil || f.oldHeap == nil {
 			panic(unsupported("vOld outside a contract wrapper or before the target call"))
@@ -184,6 +187,9 @@ func (e *Engine) intrinsic(st *State, fn *ssa.Function, name string, args []Valu
 		}
 		return r, st, true
 	case "vForall":
+		saveP := e.paths
+		e.paths = false
+		defer func() { e.paths = saveP }()
 		lo, hi := args[0].L[0], args[1].L[0]
 		fi := c.FreshVar("q", bv64)
 		tmp := st.clone()
@@ -224,6 +230,20 @@ func (e *Engine) intrinsic(st *State, fn *ssa.Function, name string, args []Valu
 		// vSameSlice(a, b []T) bool : same backing position, length (aliasing view), not content
 		a, b := args[0], args[1]
 		return boolV(c.And(c.Eq(a.L[0], b.L[0]), c.Eq(a.L[1], b.L[1]), c.Eq(a.L[2], b.L[2]))), st, true
+	case "vJoined":
+		// vJoined(f): run f with control-flow joins (one resulting state) even inside a path-sensitive harness
+		saveP := e.paths
+		e.paths = false
+		_, out := e.callValue(st, args[0], nil, args[0].T.Underlying().(*types.Signature), pos)
+		e.paths = saveP
+		return nil, out, true
+	case "vSame":
+		// vSame(a, b): bit-for-bit equality of two values of the same type
+		acc := c.True()
+		for k := range args[0].L {
+			acc = c.And(acc, c.Eq(args[0].L[k], args[1].L[k]))
+		}
+		return boolV(acc), st, true
 	case "vSeparate":
 		// vSeparate(a, b): the two slices/strings live in different backing arrays
 		return boolV(c.Or(c.Ne(args[0].L[0], args[1].L[0]), c.Eq(args[0].L[0], e.k64(0)))), st, true
